@@ -1560,4 +1560,129 @@ theorem bundleProperty_repeatable : ∀ v, Repeatable BundlePropertyExperimenter
     exact h2
 
 
+/-- TLVTableMod -/
+theorem tlvTableMod_pure (v : V) : Pure2 TLVTableMod.lenM TLVTableMod.marshalM v := by
+  have hl : LenPure TLVTableMod.lenM v := by
+    intro l v1 h
+    unfold TLVTableMod.lenM at h
+    split at h
+    · obtain ⟨⟨ls, ms'⟩, hm, h2⟩ := bind_ok_inv _ _ _ h
+      have e := mapM2_pure _ _ _ _ (fun x _ a x' hx => (tlvTableMap_pure x).1 a x' hx) hm
+      subst e
+      cases h2; rfl
+    · exact absurd h (by simp)
+  refine ⟨hl, ?_⟩
+  intro bs v2 h
+  unfold TLVTableMod.marshalM at h
+  obtain ⟨⟨l, v'⟩, hlen, h2⟩ := bind_ok_inv _ _ _ h
+  have e := hl _ _ hlen
+  subst e
+  simp only at h2
+  split at h2
+  · obtain ⟨⟨bss, ms'⟩, hm, h3⟩ := bind_ok_inv _ _ _ h2
+    obtain ⟨b, _, h4⟩ := bind_ok_inv _ _ _ h3
+    have e2 := mapM2_pure _ _ _ _ (fun x _ a x' hx => (tlvTableMap_pure x).2 a x' hx) hm
+    subst e2
+    cases h4; rfl
+  · exact absurd h2 (by simp)
+
+/-- TLVTableReply -/
+theorem tlvTableReply_pure (v : V) : Pure2 TLVTableReply.lenM TLVTableReply.marshalM v := by
+  have hl : LenPure TLVTableReply.lenM v := by
+    intro l v1 h
+    unfold TLVTableReply.lenM at h
+    split at h
+    · obtain ⟨⟨ls, ms'⟩, hm, h2⟩ := bind_ok_inv _ _ _ h
+      have e := mapM2_pure _ _ _ _ (fun x _ a x' hx => (tlvTableMap_pure x).1 a x' hx) hm
+      subst e
+      cases h2; rfl
+    · exact absurd h (by simp)
+  refine ⟨hl, ?_⟩
+  intro bs v2 h
+  unfold TLVTableReply.marshalM at h
+  obtain ⟨⟨l, v'⟩, hlen, h2⟩ := bind_ok_inv _ _ _ h
+  have e := hl _ _ hlen
+  subst e
+  simp only at h2
+  split at h2
+  · obtain ⟨⟨bss, ms'⟩, hm, h3⟩ := bind_ok_inv _ _ _ h2
+    obtain ⟨b, _, h4⟩ := bind_ok_inv _ _ _ h3
+    have e2 := mapM2_pure _ _ _ _ (fun x _ a x' hx => (tlvTableMap_pure x).2 a x' hx) hm
+    subst e2
+    cases h4; rfl
+  · exact absurd h2 (by simp)
+
+/-- VendorError (bundle error): neither call touches the value -/
+theorem vendorError_pure (v : V) : Pure2 VendorError.lenM VendorError.marshalM v := by
+  have hl : LenPure VendorError.lenM v := by
+    intro l v1 h
+    unfold VendorError.lenM at h
+    split at h
+    · exact absurd h (by simp)
+    · obtain ⟨⟨le, e'⟩, he, h2⟩ := bind_ok_inv _ _ _ h
+      have e := (errorMsg_pure _).1 _ _ he
+      subst e
+      cases h2; rfl
+    · exact absurd h (by simp)
+  refine ⟨hl, ?_⟩
+  intro bs v2 h
+  unfold VendorError.marshalM at h
+  obtain ⟨⟨l, v'⟩, hlen, h2⟩ := bind_ok_inv _ _ _ h
+  have e := hl _ _ hlen
+  subst e
+  simp only at h2
+  split at h2
+  · obtain ⟨hb, _, h3⟩ := bind_ok_inv _ _ _ h2
+    obtain ⟨⟨db, d'⟩, hd, h4⟩ := bind_ok_inv _ _ _ h3
+    obtain ⟨b, _, h5⟩ := bind_ok_inv _ _ _ h4
+    have e2 := (uBuffer_pure _).2 _ _ hd
+    subst e2
+    cases h5; rfl
+  · exact absurd h2 (by simp)
+
+/-- SwitchFeatures: MarshalBinary() stores `Header.Length = Len()`; the ports are encoded from copies -/
+theorem switchFeatures_repeatable : ∀ v, Repeatable SwitchFeatures.lenM SwitchFeatures.marshalM v := by
+  have hlp : ∀ v, LenPure SwitchFeatures.lenM v := by
+    intro v l v1 h
+    unfold SwitchFeatures.lenM at h
+    split at h
+    · obtain ⟨_, _, h2⟩ := bind_ok_inv _ _ _ h
+      cases h2; rfl
+    · exact absurd h (by simp)
+  apply repeatable_of_lenThen SwitchFeatures.lenM
+    (fun l0 v => do
+      let (l1, v) ← SwitchFeatures.lenM v
+      match v with
+      | .obj "SwitchFeatures" [h, dpid, .num b, .num nt, .num ax, .bytes pad, .num caps, .num acts, .list ports] =>
+        let h := Header.setLength l1 h
+        let hb ← Header.bytes h
+        let (pbs, _) ← mapM2 PhyPort.marshalM ports
+        let bs ← fill l0.toNat ([pCopy hb, pU32 b, pU8 nt, pU8 ax, pCopy pad, pU32 caps, pU32 acts] ++ pbs.map pCopy)
+        .ok (bs, .obj "SwitchFeatures" [h, dpid, .num b, .num nt, .num ax, .bytes pad, .num caps, .num acts, .list ports])
+      | _ => .panic)
+  · intro v; rfl
+  · intro v; exact (hlp v).idem
+  · intro l v1 bs v2 hl hE
+    simp only [hl, Res.bind_ok] at hE
+    split at hE
+    · rename_i h dpid b nt ax pad caps acts ports
+      obtain ⟨hb, hhb, h3⟩ := bind_ok_inv _ _ _ hE
+      obtain ⟨⟨pbs, ps'⟩, hm, h4⟩ := bind_ok_inv _ _ _ h3
+      obtain ⟨bb, hf, h5⟩ := bind_ok_inv _ _ _ h4
+      cases h5
+      have hl2 : SwitchFeatures.lenM (.obj "SwitchFeatures" [Header.setLength l h, dpid, .num b, .num nt, .num ax, .bytes pad, .num caps, .num acts, .list ports]) =
+          .ok (l, .obj "SwitchFeatures" [Header.setLength l h, dpid, .num b, .num nt, .num ax, .bytes pad, .num caps, .num acts, .list ports]) := by
+        unfold SwitchFeatures.lenM at hl ⊢
+        split at hl
+        · rename_i heq
+          cases heq
+          obtain ⟨⟨ls, ps2⟩, hml, hl'⟩ := bind_ok_inv _ _ _ hl
+          simp only [Res.pure_eq, Res.ok.injEq, Prod.mk.injEq, and_true] at hl'
+          simp only [hml, Res.bind_ok, Res.pure_eq, hl']
+        · exact absurd hl (by simp)
+      refine ⟨hl2, ?_⟩
+      simp only [hl2, Res.bind_ok, Header.setLength_idem, hhb, hm, hf]
+    · exact absurd hE (by simp)
+
+
 end OFV.Props.C13
